@@ -724,8 +724,10 @@ class Task:
             if predecessors:
                 self.predecessors = predecessors
 
-        for k, v in kwargs.items():
-            self.__setattr__(k, v)
+            # custom attributes too: a name that cannot be set (a read-only property such as `wbs`)
+            # raises after the relations were accepted, and they are undone like any rejected relation
+            for k, v in kwargs.items():
+                self.__setattr__(k, v)
 
     # noinspection PyProtectedMember
     @staticmethod
